@@ -110,3 +110,11 @@ def replay(rec) -> int:
         f = fs[0] if fs else None
     print(json.dumps(f, default=str)[:2000] if f else "replay: observation allowed by the spec")
     return 1 if f else 0
+
+
+META = {
+    'technique': 'TLC liveness check of the run loop (VirtualTime.tla with the spin nudge, Spin.tla) + exported histories and at-scale same-instant batches performed on the real schedulers under a watchdog',
+    'level': 'TLC checks <>[](driver returned) under weak fairness on the run-loop model with the clock nudge enabled, and on Spin.tla (n = k*limit+delta same-instant actions, self-rescheduling, restart); every exported history is performed with the spin limit patched to 1 and every Spin scenario with limits 1, 2 and the real 100 on numeric and datetime clocks; a driver call that does not return within the watchdog (confirmed by a longer retry) is a violation.',
+    'note': 'TLC 1.8; watchdog = wall clock (5 s, confirmed with 20-40 s); MAX_SPINNING patched as a module attribute for the small variants',
+    'ref': 'DESIGN.md 6 C29',
+}
